@@ -35,6 +35,10 @@ structure St where
   expired : List (Rec × Nat × Nat) := []
   /-- a restart happened since the last probe -/
   restarted : Bool := false
+  /-- records of blobs the storage no longer holds (quarantined, or unreadable and left in place under
+      `ignore_corrupted`): if such a blob is held again after a later start (its file was repaired), it comes back with
+      the records it had -/
+  gone : History := []
 deriving Inhabited
 
 def parseStates (s : String) : Option (List BlobSt) :=
@@ -93,6 +97,9 @@ def verdict (expected got : String) : String :=
 /-- process a `#states` observation: place the pending record(s), judge placement -/
 def onStates (st : St) (obs : List BlobSt) : St × String :=
   -- drop blobs that no longer exist, add new ones
+  let known : History := st.hist ++ st.gone.filter (fun g => !(st.hist.any (·.1 == g.1)))
+  let st := { st with hist := known,
+                      gone := known.filter (fun g => !(obs.any (·.id == g.1))) }
   let hist0 : History := obs.map (fun b => (b.id, histGet st.hist b.id))
   let maxId := obs.foldl (fun m b => match m with | none => some b.id | some x => some (max x b.id)) st.maxId
   let grow := obs.map (fun b => (b, b.count - (histGet st.hist b.id).length))
